@@ -33,7 +33,13 @@ func Swagger(b []byte) (*spec.Swagger, error) {
 }
 
 // ValidateSpec runs the reference Swagger 2.0 validation (as `swagger validate`).
-func ValidateSpec(b []byte) error {
+func ValidateSpec(b []byte) (err error) {
+	// go-openapi/analysis panics on some names (e.g. a property called "a%b")
+	defer func() {
+		if rc := recover(); rc != nil {
+			err = fmt.Errorf("go-openapi panicked while analysing the document: %v", rc)
+		}
+	}()
 	// go-openapi/validate overflows the stack (fatal, not recoverable) on
 	// circular allOf ancestry; such documents are invalid anyway.
 	if tree, err := specgen.Parse(b); err == nil {
